@@ -54,6 +54,16 @@ else:
 FLAG_REF = 0x80
 
 
+class _Null:
+    """marshal.c's TYPE_NULL; it ends a dict and is distinct from None."""
+
+    def __repr__(self) -> str:
+        return "NULL"
+
+
+NULL = _Null()
+
+
 # The keys in the following dictionary are unmarshal codes, like "s",
 # "c", "<", etc. The values of the dictionary are names of routines
 # to call that do the data unmarshaling.
@@ -241,7 +251,7 @@ class _VersionIndependentUnmarshaller:
     # In C this NULL. Not sure what it should
     # translate here. Note NULL != None which is below
     def t_C_NULL(self, save_ref, bytes_for_s=False):
-        return None
+        return NULL
 
     def t_None(self, save_ref, bytes_for_s=False):
         return None
@@ -428,10 +438,10 @@ class _VersionIndependentUnmarshaller:
         # dictionary
         while True:
             key = self.r_object(bytes_for_s=bytes_for_s)
-            if key is None:
+            if key is NULL:
                 break
             val = self.r_object(bytes_for_s=bytes_for_s)
-            if val is None:
+            if val is NULL:
                 break
             ret[key] = val
             pass
